@@ -198,6 +198,21 @@ pub fn badcalls(w: &mut World, r: usize, rng: &mut Rng) {
                 }
             }
         }
+        // odd range bounds
+        {
+            use std::ops::Bound;
+            let a = json!({"kind": kind, "len": len});
+            rec.call("list_range_to_max_incl", "valid", a.clone(), |d| ("ok".into(), d.list_range(o, ..=usize::MAX).count() != len));
+            rec.call("list_range_excl_start_0", "valid", a.clone(), |d| ("ok".into(), d.list_range(o, (Bound::Excluded(0usize), Bound::Unbounded)).count() + 1 < len));
+            rec.call("list_range_excl_start_max", "any", a.clone(), |d| ("ok".into(), d.list_range(o, (Bound::Excluded(usize::MAX), Bound::Unbounded)).count() == 0));
+            rec.call("list_range_incl_max_start", "any", a.clone(), |d| ("ok".into(), d.list_range(o, usize::MAX..=usize::MAX).count() == 0));
+            rec.edit("splice_min_del_huge_idx", "invalid", a.clone(), |t| {
+                if kind == "list" { r_unit(t.splice(o, usize::MAX, isize::MIN, Vec::<automerge::hydrate::Value>::new()), |_| false) } else { r_unit(t.splice_text(o, usize::MAX, isize::MIN, ""), |_| false) }
+            });
+            rec.edit("splice_min_del_mid_idx", "invalid", a.clone(), |t| {
+                if kind == "list" { r_unit(t.splice(o, (1usize << 63) + 1, isize::MIN, Vec::<automerge::hydrate::Value>::new()), |_| false) } else { r_unit(t.splice_text(o, (1usize << 63) + 1, isize::MIN, ""), |_| false) }
+            });
+        }
         // deletion counts
         for del in [isize::MAX, isize::MIN, isize::MIN + 1, -1, (len as isize) + 1, -((len as isize) + 1)] {
             let a = json!({"kind": kind, "del": del.to_string(), "len": len});
